@@ -89,6 +89,13 @@ def generate(rng, tier):
             need = 120 if site in ("a", "b") else 200
             return None if int(f["min_values_per_byte"]) >= need else "a byte position takes only %s values" % f["min_values_per_byte"]
         cs.append(Case("rng.stat %s %d" % (site, ns), "statistical-test:" + site, exp, dict(impl_only=True)))
+    # "a fresh challenge after EVERY attempt": the reconnect histories of C05 (right, wrong, replayed, stale proofs; client data equal to the
+    # challenge on offer or to an earlier one), whose expected output contains the challenge after each attempt and the number of bytes drawn
+    import importlib
+    c05 = importlib.import_module("props.c05") if "props" in __name__ else importlib.import_module("c05")
+    for _ in range(120 if tier == "quick" else 4000):
+        c = c05.history_case(rng, 12)
+        if c: cs.append(c)
     return cs
 
 def nontrivial(case, out):
